@@ -31,7 +31,12 @@ META = {
             "PennyLane's own is_pauli_word / simplify / isinstance tests. Float-valued `results` are compared by "
             "object identity in history and their running float sum is checked by a Python left fold, not in Coq "
             "(the integer device covers the numeric branch of update exactly). zip(strict=True) length mismatch "
-            "between results and batch is not modelled. Other devices than default.qubit are not exercised.",
+            "between results and batch is not modelled. An execute call in which default.qubit itself raises is "
+            "modelled as `no tracker access` (CExecuteFailed); on the integer device an exception can only come from "
+            "the tracking loop (analytic shadow measurement -> TypeError) and the model predicts the partial bookkeeping. "
+            "The count theorems (executions/batches/shots/...) are stated for `with Tracker(dev):` followed by device "
+            "calls; for programs with resets and user updates the general statements are totals_are_sums and "
+            "history_in_order. Other devices than default.qubit and the minimal test device are not exercised.",
     "assumptions": ["results returned by execute have the same length as the batch",
                     "keyword arguments of update are ints, bools, None or non-numeric objects (floats only via the Python fold oracle)"],
     "trusted": ["hand-written model coq/Disc/TrackerModel.v tied to /repo by correspondence only",
@@ -418,7 +423,7 @@ def direct_oracle(case, ob):
 def run(ctx):
     ctx.coq_props()
     quick = ctx.tier == "quick"
-    n_dq, n_int, n_nse = (110, 500, 900) if quick else (900, 4000, 8000)
+    n_dq, n_int, n_nse = (90, 380, 700) if quick else (900, 4000, 8000)
     rng = ctx.rng
     cases = list(CORPUS)
     for _ in range(n_dq):
